@@ -89,7 +89,20 @@ class DCo:
     b: str
     c: int
 
+@dataclasses.dataclass
+class SCont:
+    xs: List[int]
+    ys: Set[bool]
+    zs: List[List[int]]
+    d: Dict[str, int]
+@dataclasses.dataclass
+class DCont:
+    xs: List[Optional[int]]
+    ys: Set[int]
+    zs: List[List[Any]]
+    d: Dict[str, Optional[int]]
 R = ConversionRetort()
+C_CONT = R.get_converter(SCont, DCont)
 def f_len(src): return src.a + src.c + 1
 C_REN = R.get_converter(Src, DRen, recipe=[link(P[Src].b, P[DRen].z)])
 C_OVERLAP = R.get_converter(Src, DRen, recipe=[link(P[Src].b, P[DRen].z), link(P[Src].a, P[DRen].z, coercer=str)])     # first matching link wins
@@ -150,6 +163,17 @@ def nested(n, x, y, isnone, a, rating):
     if p != DNestP(inner=DIn2(src.inner.x, src.inner.y, rating), a=a + 5): return False       # from_param reaches the nested level; param `a` shadows src.a
     return src == snap
 
+def containers(n, x, b):
+    """element-wise converted containers are new objects even when every element is passed as is (only equal types are as-is)"""
+    n = pick(n, 3)
+    src = SCont(xs=[x] * n, ys={b}, zs=[[x]] * n, d={"k": x})
+    out = C_CONT(src)
+    if out != DCont(xs=[x] * n, ys={b}, zs=[[x]] * n, d={"k": x}): return False
+    if out.xs is src.xs or out.ys is src.ys or out.zs is src.zs or out.d is src.d: return False
+    if n and out.zs[0] is src.zs[0]: return False
+    out.xs.append(None); out.d["new"] = None
+    return src == SCont(xs=[x] * n, ys={b}, zs=[[x]] * n, d={"k": x})
+
 SIG_OK = (inspect.signature(conv_param) == inspect.signature(stub_sig) and conv_param.__name__ == "conv_param")
 '''
 
@@ -189,6 +213,8 @@ def build(tier, seed):
     m.ob("nested", "n: int, x: int, y: str, isnone: bool, a: int, rating: int", "return nested(n, x, y, isnone, a, rating)",
          pre=["0 <= n <= 2", "len(y) <= 1"], timeout=tmo, family=fam,
          bounds="nested model, Optional[model], List[model], Dict[str, model], List->Sequence (tuple); containers of length <=2; from_param to a nested field")
+    m.ob("containers_fresh", "n: int, x: int, b: bool", "return containers(n, x, b)", pre=["0 <= n <= 2"], timeout=tmo, family=fam,
+         bounds="List[int]->List[Optional[int]], Set[bool]->Set[int], List[List[int]]->List[List[Any]], Dict[str,int]->Dict[str,Optional[int]]; results share no container with the source")
     m.ob("signature", "x: int", "return SIG_OK", timeout=30, family=fam, bounds="impl_converter preserves the stub's signature")
     m.ob("history", "a: int, b: str, c: int", "return history(a, b, c)", pre=["len(b) <= 1"], timeout=tmo * 2, family="converter cache vs per-call recipe",
          bounds="plain-then-recipe and recipe-then-plain on one retort; refused pair stays refused after a call with a coercer")
